@@ -8,11 +8,20 @@ callbacks return (type + payload content) vs the requests recorded by the python
 per-callback transcripts (what the protocol asked, and whether the call returned or raised), and the
 real extension objects (`CameraHardware`, `CommunicationController`, `VisualizationController`) built
 on the interop-wrapped protocol with every public method called.
+
+Several instances of the one protocol class can be alive in a leg at the same time (OMNeT++ and the
+python simulator both create one wrapper per node in one process; `ids`, `who`, `legs` of a case) with
+their callbacks interleaved; the protocol keeps state (it counts its callbacks and reads its tracked
+variables back into requests), and callbacks repeat with equal content (a stationary node's telemetry,
+a re-sent packet, a periodic timer).
 """
 import copy
 import json
 import logging
+import os
 import random
+import subprocess
+import sys
 import warnings
 
 from common import TICK, bitsf, bitsv3, fbits, stable_hash, to_ticks
@@ -48,6 +57,35 @@ def trig_key(n, kind, key, t):
     return f"{n}|{kind}|{t}|{key}"
 
 
+def case_ids(case):
+    """node ids of the wrapped instances (instance 0 first)"""
+    return list(case.get("ids") or [case["id"]])
+
+
+def case_who(case):
+    """instance index each step is addressed to"""
+    w = case.get("who")
+    return list(w) if w is not None else [0] * len(case["steps"])
+
+
+def case_legs(case):
+    """which instances exist in which leg; an absent instance's steps are not delivered there"""
+    everyone = list(range(len(case_ids(case))))
+    legs = case.get("legs") or {}
+    return {"interop": list(legs.get("interop", everyone)), "python": list(legs.get("python", everyone))}
+
+
+def leg_steps(case, leg):
+    """global indices of the steps delivered in a leg"""
+    present = set(case_legs(case)[leg])
+    return [i for i, k in enumerate(case_who(case)) if k in present]
+
+
+def nat_of(v):
+    v = str(v)
+    return int(v) if v.isascii() and v.isdigit() else 0
+
+
 # ---------------------------------------------------------------------------------- behaviour
 class Behaviour:
     """reaction to a trigger (id, callback kind, payload key, time) = an action list drawn from a PRNG
@@ -57,7 +95,8 @@ class Behaviour:
         self.seed = seed
         p = {"counts": [0, 0, 0, 1, 2, 3, 4, 5, 6, 8],
              "w": {"setTimer": 5, "send": 3, "broadcast": 2, "goto": 1.5, "gotoGeo": 0.7, "setSpeed": 1,
-                   "track": 2, "ext": 1.5, "setRange": 0.7, "cancelTimer": 0.3},
+                   "track": 2, "ext": 1.5, "setRange": 0.7, "cancelTimer": 0.3,
+                   "trackInc": 0.0, "sendTracked": 0.0, "sendCount": 0.0},
              "offsets": [0, 1, 512, 1024, 4096, -1, -2048], "pGuarded": 0.0, "pBadDst": 0.2}
         p.update(profile or {})
         self.p = p
@@ -104,6 +143,10 @@ class Behaviour:
             return ["track", r.choice(["x", "y", "count"]), str(r.randint(0, 99))]
         if op == "ext":
             return ["ext", r.choice(EXT_METHODS)]
+        if op in ("trackInc", "sendTracked"):
+            return [op, r.choice(["x", "y", "count"])]
+        if op == "sendCount":
+            return ["sendCount"]
         raise ValueError(op)
 
 
@@ -179,12 +222,12 @@ class TimerStub(_Stub):
         return self.rec.now
 
     def set_timer(self, timer, timestamp, node):
-        self.rec.log.append(["timer", ["setTimer", timer, to_ticks(timestamp)], node.id])
+        self.rec.log.append(["timer", ["setTimer", timer, to_ticks(timestamp)], node.id, self.rec.inst(node)])
         if timestamp < self.rec.now:
             raise StubRefused("past")
 
     def cancel_timer(self, timer, node):
-        self.rec.log.append(["timer", ["cancelTimer", timer], node.id])
+        self.rec.log.append(["timer", ["cancelTimer", timer], node.id, self.rec.inst(node)])
 
 
 class CommStub(_Stub):
@@ -194,7 +237,7 @@ class CommStub(_Stub):
 
     def handle_command(self, command, node):
         a = decode_comm(command)
-        self.rec.log.append(["communication", a, node.id])
+        self.rec.log.append(["communication", a, node.id, self.rec.inst(node)])
         if a[0] == "send" and (a[2] is None or a[2] == node.id):
             raise StubRefused("destination")
 
@@ -205,7 +248,7 @@ class MobStub(_Stub):
         self.nodes = {}
 
     def handle_command(self, command, node):
-        self.rec.log.append(["mobility", decode_mob(command), node.id])
+        self.rec.log.append(["mobility", decode_mob(command), node.id, self.rec.inst(node)])
 
 
 # ---------------------------------------------------------------------------------- recorder
@@ -220,17 +263,27 @@ class Recorder:
         self.transcripts = []      # one list of [act, ok] per callback
         self.exc = []              # exception type names of refused calls, in order
         self.triggers = []         # what the protocol read: (id, kind, key, time)
+        self.seen_pos = []         # ... and the position a telemetry callback carried (None otherwise)
         self.ext_bad = []          # extension calls that returned a non-neutral value
-        self.log = []              # python side: [handler, request, node id]
+        self.log = []              # python side: [handler, request, node id, instance the node object belongs to]
+        self.nodes = []            # python side: the Node objects, by instance
         self.now = 0.0
         self.ext = {}
 
-    def on_callback(self, proto, kind, key):
+    def inst(self, node):
+        return next((k for k, nd in self.nodes if nd is node), None)
+
+    def on_callback(self, proto, kind, key, telemetry=None):
         tr = []
         self.transcripts.append(tr)
+        proto.seen = getattr(proto, "seen", 0) + 1       # protocol-local state: callbacks received
         n = proto.provider.get_id()
         t = to_ticks(proto.provider.current_time())
         self.triggers.append([n, kind, key, t])
+        try:
+            self.seen_pos.append(None if telemetry is None else [fbits(float(c)) for c in telemetry.current_position])
+        except Exception:
+            self.seen_pos.append(["garbled", repr(telemetry)[:80]])
         k = trig_key(n, kind, key, t)
         row = self.table.get(k)
         if row is None:
@@ -246,7 +299,21 @@ class Recorder:
             else:
                 self.issue(proto, spec, tr, unc)
 
+    def resolve(self, proto, act):
+        """the request actually made: entries whose content depends on what the protocol instance has
+        seen (`self.seen`) or reads back from `provider.tracked_variables`"""
+        op = act[0]
+        if op == "trackInc":
+            tv = proto.provider.tracked_variables
+            return ["track", act[1], str(nat_of(tv.get(act[1], "0")) + 1)]
+        if op == "sendTracked":
+            return ["broadcast", f"{act[1]}={proto.provider.tracked_variables.get(act[1], '-')}"]
+        if op == "sendCount":
+            return ["broadcast", f"n={proto.seen}"]
+        return act
+
     def issue(self, proto, act, tr, uncaught):
+        act = self.resolve(proto, act)
         try:
             self.perform(proto, act)
         except Exception as e:
@@ -259,7 +326,8 @@ class Recorder:
         return True
 
     def extension(self, proto, which):
-        obj = self.ext.get(which)
+        slot = (id(proto), which)
+        obj = self.ext.get(slot)
         if obj is None:
             if which == "camera":
                 obj = CameraHardware(proto, CameraConfiguration(20.0, 30.0, 180.0, 0.0))
@@ -267,7 +335,8 @@ class Recorder:
                 obj = VisualizationController(proto)
             else:
                 obj = CommunicationController(proto)
-            self.ext[which] = obj
+            self.ext[slot] = obj
+            self.ext_keep = getattr(self, "ext_keep", []) + [proto]      # keeps id(proto) unique
         return obj
 
     def perform(self, proto, act):
@@ -333,7 +402,7 @@ def make_protocol(rec):
             rec.on_callback(self, "packet", message)
 
         def handle_telemetry(self, telemetry):
-            rec.on_callback(self, "telemetry", "")
+            rec.on_callback(self, "telemetry", "", telemetry)
 
         def finish(self):
             rec.on_callback(self, "finish", "")
@@ -358,11 +427,16 @@ def deliver(enc, step):
 
 def run_interop(case, behaviour):
     rec = Recorder(case, behaviour, "interop")
-    enc = InteropEncapsulator()
-    enc.encapsulate(make_protocol(rec))
-    enc.set_id(case["id"])
+    ids, who, present = case_ids(case), case_who(case), case_legs(case)["interop"]
+    cls = make_protocol(rec)          # ONE protocol class, one wrapper per node, all alive at once
+    encs = {}
+    for k in present:
+        encs[k] = InteropEncapsulator()
+        encs[k].encapsulate(cls)
+        encs[k].set_id(ids[k])
     out = []
-    for step in case["steps"]:
+    for i in leg_steps(case, "interop"):
+        step, enc = case["steps"][i], encs[who[i]]
         enc.set_timestamp(step[0] / TICK)
         n0 = len(rec.transcripts)
         try:
@@ -373,10 +447,11 @@ def run_interop(case, behaviour):
         except Exception as e:
             ret = "raised:" + type(e).__name__
         tr = rec.transcripts[n0] if len(rec.transcripts) > n0 else []
-        out.append({"ret": ret, "transcript": tr})
-    pending = len(enc.provider.consequences)
+        out.append({"ret": ret, "transcript": tr, "calls": len(rec.transcripts) - n0})
+    pending_by = {k: len(encs[k].provider.consequences) for k in present}
     # the real extension objects, built directly on the interop-wrapped protocol, every public method
     ext = []
+    enc = encs[present[0]]
     before = len(enc.provider.consequences)
     rec2 = Recorder({"frozen": True}, None, "interop")
     for name in EXT_METHODS + ["comm.set_transmission_range"]:
@@ -393,31 +468,44 @@ def run_interop(case, behaviour):
         if len(enc.provider.consequences) != before:
             res["touchesHandler"] = True      # an extension must not issue a request
         ext.append([name, res])
-    return {"callbacks": out, "pending": pending, "ext": ext, "table": list(rec.table.values()),
-            "triggers": rec.triggers, "exc": rec.exc, "extBad": rec.ext_bad}
+    return {"callbacks": out, "pending": sum(pending_by.values()), "pendingBy": [[k, n] for k, n in pending_by.items()],
+            "ext": ext, "table": list(rec.table.values()),
+            "triggers": rec.triggers, "seenPos": rec.seen_pos, "exc": rec.exc, "extBad": rec.ext_bad}
 
 
 def run_python(case, behaviour):
     rec = Recorder(case, behaviour, "python")
-    node = Node()
-    node.id = case["id"]
-    node.position = (0.0, 0.0, 0.0)
-    enc = PythonEncapsulator(node, timer=TimerStub(rec), communication=CommStub(rec), mobility=MobStub(rec))
-    enc.encapsulate(make_protocol(rec))
-    node.protocol_encapsulator = enc
-    raised = []
-    for step in case["steps"]:
+    ids, who, present = case_ids(case), case_who(case), case_legs(case)["python"]
+    cls = make_protocol(rec)
+    handlers = {"timer": TimerStub(rec), "communication": CommStub(rec), "mobility": MobStub(rec)}   # shared by the nodes
+    encs = {}
+    for k in present:
+        node = Node()
+        node.id = ids[k]
+        node.position = (0.0, 0.0, 0.0)
+        rec.nodes.append((k, node))
+        encs[k] = PythonEncapsulator(node, **handlers)
+        encs[k].encapsulate(cls)
+        node.protocol_encapsulator = encs[k]
+    raised, calls = [], []
+    for i in leg_steps(case, "python"):
+        step = case["steps"][i]
         rec.now = step[0] / TICK
         n0 = len(rec.transcripts)
         try:
-            deliver(enc, step)
+            deliver(encs[who[i]], step)
             raised.append(None)
         except Exception as e:
             raised.append(type(e).__name__)
+        calls.append(len(rec.transcripts) - n0)
         if len(rec.transcripts) == n0:
             rec.transcripts.append([])
-    return {"log": rec.log, "transcripts": rec.transcripts, "raised": raised, "table": list(rec.table.values()),
-            "triggers": rec.triggers, "exc": rec.exc}
+        elif len(rec.transcripts) > n0 + 1:          # delivered more than once: keep one slot per step
+            merged = [x for tr in rec.transcripts[n0:] for x in tr]
+            del rec.transcripts[n0:]
+            rec.transcripts.append(merged)
+    return {"log": rec.log, "transcripts": rec.transcripts, "raised": raised, "calls": calls,
+            "table": list(rec.table.values()), "triggers": rec.triggers, "seenPos": rec.seen_pos, "exc": rec.exc}
 
 
 def run_shared_class():
@@ -497,25 +585,93 @@ def aborted_by_cancel(cb):
     return cb["ret"] == "raised:NotImplementedError" and tr and tr[-1][0][0] == "cancelTimer" and not tr[-1][1]
 
 
+class Pristine:
+    """Evaluates a case in a process in which NO case has run before: a freshly started interpreter
+    that has only imported this module forks one child per case.  Used when a failing input is
+    minimised: a wrapper that keeps state between instances also keeps it between the cases of one
+    check run, and a replay file must fail on its own (`--replay` starts a new process)."""
+
+    def __init__(self):
+        env = dict(os.environ)
+        env["VERIF_COVERAGE"] = "0"
+        self.proc = subprocess.Popen([sys.executable, os.path.abspath(__file__), "--pristine-server"],
+                                     stdin=subprocess.PIPE, stdout=subprocess.PIPE, text=True, env=env)
+
+    def fails(self, case):
+        """signatures the property predicate reports for the case alone"""
+        try:
+            self.proc.stdin.write(json.dumps(case) + "\n")
+            self.proc.stdin.flush()
+            return [x[0] for x in json.loads(self.proc.stdout.readline())]
+        except Exception:
+            return None
+
+    def close(self):
+        try:
+            self.proc.stdin.close()
+            self.proc.wait(timeout=10)
+        except Exception:
+            self.proc.kill()
+
+
+def pristine_server():
+    import signal
+    out = os.fdopen(os.dup(1), "w")
+    sys.stdout = sys.stderr
+    chk = C14()
+    for line in sys.stdin:
+        case = json.loads(line)
+        r, w = os.pipe()
+        pid = os.fork()
+        if pid == 0:
+            os.close(r)
+            try:
+                signal.alarm(60)
+                res = [[sig, msg] for sig, msg in chk.oracle(case, chk.run_impl(case))]
+            except BaseException as e:
+                res = [["error", repr(e)]]
+            with os.fdopen(w, "w") as f:
+                f.write(json.dumps(res))
+            os._exit(0)
+        os.close(w)
+        with os.fdopen(r) as f:
+            data = f.read()
+        os.waitpid(pid, 0)
+        out.write((data.strip() or "[]") + "\n")
+        out.flush()
+
+
 class C14(Check):
     prop = "C14"
     level_text = ("Theorems for every protocol program (interaction tree), node id and callback sequence: every interop "
                   "callback returns exactly the consequences of the calls accepted during it and leaves nothing pending; "
                   "for acceptance-independent programs (and whenever nothing is refused) the requests the python wrapper "
                   "forwards, each to one handler in order, are the concatenation of the lists interop returns, tracked "
-                  "variables apart; extension methods on a non-python provider return neutral values and issue nothing. "
+                  "variables apart; extension methods on a non-python provider return neutral values and issue nothing; "
+                  "with any number of wrapped instances of the protocol class alive at once and their callbacks interleaved, "
+                  "every instance returns / performs / forwards what it does when driven alone (the other instances, and the "
+                  "other instances of the other run, do not matter). "
                   "The model is tied to both real wrappers and the real extension classes by differential execution.")
-    rule = ("one table-driven IProtocol under InteropEncapsulator (set_id/set_timestamp) and under PythonEncapsulator with "
+    rule = ("one table-driven IProtocol class under InteropEncapsulator (set_id/set_timestamp) and under PythonEncapsulator with "
             "recording handler stubs, same callback sequence (initialize, 3-14 timer/packet/telemetry callbacks at "
             "non-decreasing dyadic times, optional finish), 0-8 actions per callback mixing timers (some in the past), "
             "sends (some to self/None), broadcasts, three mobility commands, tracked variables, extension calls, "
             "set_transmission_range (some negative), rare caught cancel_timer, a third of the cases with programs that "
-            "branch on refusal; plus every public method of the three real extension classes on the interop-wrapped "
+            "branch on refusal; 1-3 wrapped instances of the class alive at once per wrapper (two thirds of the cases more "
+            "than one: callbacks interleaved, or the others run to completion first like an earlier simulation in the same "
+            "process, sometimes re-using the node id; in 40% of those the other instances exist under one wrapper only); "
+            "half of the cases with a protocol that has memory (puts its callback count into a broadcast, increments a "
+            "tracked variable it reads back, broadcasts a tracked variable it reads back; names shared by the instances); "
+            "half of the cases draw callback contents from a small alphabet (a node that does not move incl. 0.0 / -0.0, "
+            "re-sent packets) and a callback is repeated unchanged with probability 0 / 0.25 / 0.5; "
+            "plus every public method of the three real extension classes on the interop-wrapped "
             "protocol; non-trivial = some callbacks issue 0 and others >= 3 requests of >= 2 consequence types")
     assumptions = ["callbacks return normally (a protocol that lets cancel_timer's NotImplementedError escape is finding F14b)",
                    "wrapper equivalence is claimed for programs that do not branch on refusals, or runs in which nothing is "
                    "refused; cancel_timer has no interop counterpart",
-                   "all three handlers are configured on the python side"]
+                   "all three handlers are configured on the python side",
+                   "the callbacks of one node are delivered one at a time (no re-entrancy); a replay file is judged alone, "
+                   "in a process that has run no other case"]
     modelled = ["gradysim/encapsulator/interop.py", "gradysim/encapsulator/python.py",
                 "gradysim/simulator/extension/extension.py",
                 "gradysim/simulator/extension/camera.py (no-op decision)",
@@ -528,25 +684,74 @@ class C14(Check):
         for i in range(n):
             s = stable_hash("C14", seed, i)
             r = random.Random(s)
-            steps = [[0, "initialize", ""]]
+            # how many wrapped instances of the protocol class are alive at once, and in which leg
+            n_inst = r.choice([1, 1, 2, 2, 2, 3])
+            ids = r.sample([0, 1, 3, 17], n_inst)
+            everyone = list(range(n_inst))
+            legs = {"interop": everyone, "python": everyone}
+            if n_inst > 1:
+                m = r.random()
+                if m < 0.2:
+                    legs["interop"] = [0]          # the others exist under the python wrapper only
+                elif m < 0.4:
+                    legs["python"] = [0]
+            pattern = r.choice(["interleaved", "interleaved", "others-first"]) if n_inst > 1 else "interleaved"
+            if pattern == "others-first" and r.random() < 0.5:
+                ids = [ids[0]] + r.sample([0, 1, 3, 17], n_inst - 1)      # a later run numbers its nodes anew
+            # content of the callbacks: fresh every time, or from a small alphabet so that equal
+            # callbacks recur (a node that does not move, a packet that is re-sent, a periodic timer)
+            still = r.random() < 0.5
+            spots = [(0.0, 0.0, 0.0), (-0.0, 0.0, 0.0), (float(r.randint(-20, 20)), float(r.randint(-20, 20)), 3.0)]
+            p_repeat = r.choice([0.0, 0.25, 0.5])
+            steps, who = [], []
+            for k in everyone:
+                steps.append([0, "initialize", ""])
+                who.append(k)
             t = 0
             uid = 0
-            for _ in range(r.randint(3, 14)):
+            last = {}
+            body = []
+            for _ in range(r.randint(3, 14) + 3 * (n_inst - 1)):
                 t += r.choice([0, 0, 1, 512, 1024, 1024, 3072])
-                kind = r.choice(["timer", "timer", "packet", "packet", "telemetry"])
-                if kind == "timer":
-                    steps.append([t, "timer", r.choice(NAMES)])
-                elif kind == "packet":
-                    uid += 1
-                    steps.append([t, "packet", f"p{uid}"])
+                k = r.choice(everyone)
+                if k in last and r.random() < p_repeat:
+                    st = [t] + copy.deepcopy(last[k][1:])          # the same callback once more
                 else:
-                    pos = (float(r.randint(-20, 20)), float(r.randint(-20, 20)), float(r.randint(0, 9)))
-                    steps.append([t, "telemetry", "", [fbits(c) for c in pos]])
+                    kind = r.choice(["timer", "timer", "packet", "packet", "telemetry", "telemetry" if still else "timer"])
+                    if kind == "timer":
+                        st = [t, "timer", r.choice(NAMES)]
+                    elif kind == "packet":
+                        uid += 1
+                        st = [t, "packet", f"p{r.randint(1, 2)}" if still else f"p{uid}"]
+                    else:
+                        pos = r.choice(spots) if still else \
+                            (float(r.randint(-20, 20)), float(r.randint(-20, 20)), float(r.randint(0, 9)))
+                        st = [t, "telemetry", "", [fbits(c) for c in pos]]
+                last[k] = st
+                body.append((k, st))
+            if pattern == "others-first":
+                # an earlier simulation in the same process: the other instances run to completion first
+                t0 = max([st[0] for k, st in body if k != 0], default=0)
+                body = [(k, st) for k, st in body if k != 0] + \
+                       [(k, [st[0] + t0] + st[1:]) for k, st in body if k == 0]
+                t = max([st[0] for _, st in body], default=t)
+            for k, st in body:
+                steps.append(st)
+                who.append(k)
             if r.random() < 0.7:
-                steps.append([t + r.choice([0, 1024]), "finish", ""])
+                for k in everyone:
+                    if k == 0 or r.random() < 0.5:
+                        steps.append([t + r.choice([0, 1024]), "finish", ""])
+                        who.append(k)
+                        t = steps[-1][0]
             prof = {"pGuarded": 0.25 if i % 3 == 2 else 0.0}
-            yield {"kind": "wrappers", "seed": s, "id": r.choice([0, 1, 3, 17]), "steps": steps, "profile": prof,
-                   "extRange": fbits(r.choice([25.0, 0.0, -3.0, 60.0])), "label": f"gen/{seed}/{i}",
+            if i % 2 == 1:
+                # a protocol with memory: counts its callbacks, reads its tracked variables back
+                prof["w"] = {"setTimer": 4, "send": 2, "broadcast": 1.5, "goto": 1, "gotoGeo": 0.5, "setSpeed": 0.7,
+                             "track": 2.5, "ext": 1, "setRange": 0.5, "cancelTimer": 0.3,
+                             "trackInc": 2, "sendTracked": 2.5, "sendCount": 1.5}
+            yield {"kind": "wrappers", "seed": s, "id": ids[0], "ids": ids, "who": who, "legs": legs, "steps": steps,
+                   "profile": prof, "extRange": fbits(r.choice([25.0, 0.0, -3.0, 60.0])), "label": f"gen/{seed}/{i}",
                    "sharedClass": i % 40 == 3}
 
     def behaviour(self, case):
@@ -569,7 +774,8 @@ class C14(Check):
         return {"interop": io, "python": py, "table": py["table"], "ctypes": ctype_codes(), "shared": shared}
 
     def model_input(self, case, impl):
-        return {"kind": "interop", "id": case["id"], "steps": case["steps"], "table": impl["table"],
+        return {"kind": "interop", "id": case_ids(case)[0], "ids": case_ids(case), "who": case_who(case),
+                "legs": case_legs(case), "steps": case["steps"], "table": impl["table"],
                 "ctypes": impl["ctypes"], "extRange": case.get("extRange", fbits(25.0))}
 
     def compare(self, case, impl, model):
@@ -577,23 +783,30 @@ class C14(Check):
         if model.get("untabled"):
             diffs.append(f"model reaches callbacks the implementation never made: {model['untabled'][:3]}")
         io, py = impl["interop"], impl["python"]
+        ids = case_ids(case)
+        io_idx = leg_steps(case, "interop")
         a = [[None if isinstance(c["ret"], str) else c["ret"], c["transcript"]] for c in io["callbacks"]]
         b = [[c["ret"], c["transcript"]] for c in model["interop"]]
         for i, (x, y) in enumerate(zip(a, b)):
             if x != y:
-                diffs.append(f"interop callback #{i} {case['steps'][i][:3]}: implementation {json.dumps(x)[:300]} / "
-                             f"model {json.dumps(y)[:300]}")
+                diffs.append(f"interop callback #{io_idx[i]} {case['steps'][io_idx[i]][:3]}: implementation "
+                             f"{json.dumps(x)[:300]} / model {json.dumps(y)[:300]}")
                 break
         if len(a) != len(b):
             diffs.append(f"interop: {len(a)} callbacks vs model {len(b)}")
         if io["pending"] != model["pending"]:
             diffs.append(f"interop pending consequences after the run: {io['pending']} / model {model['pending']}")
-        la = [[h, r] for h, r, _ in py["log"]]
-        if la != model["pyLog"]:
-            k = next((i for i, (x, y) in enumerate(zip(la, model["pyLog"])) if x != y), min(len(la), len(model["pyLog"])))
-            diffs.append(f"python forwarding log differs at #{k}: {la[k:k + 2]} / model {model['pyLog'][k:k + 2]}")
+        for k, mlog in model["pyLog"]:
+            la = [[h, r] for h, r, _, inst in py["log"] if inst == k]
+            if la != mlog:
+                j = next((i for i, (x, y) in enumerate(zip(la, mlog)) if x != y), min(len(la), len(mlog)))
+                diffs.append(f"python forwarding log of node {ids[k]} differs at #{j}: {la[j:j + 2]} / model {mlog[j:j + 2]}")
+        if len(py["log"]) != sum(len(mlog) for _, mlog in model["pyLog"]):
+            diffs.append("python forwarding log: requests of nodes that are not in the run")
         if py["transcripts"] != model["pyTranscripts"]:
-            diffs.append("python transcripts differ from the model's")
+            j = next((i for i, (x, y) in enumerate(zip(py["transcripts"], model["pyTranscripts"])) if x != y), 0)
+            diffs.append(f"python transcripts differ from the model's at delivered callback #{j}: "
+                         f"{json.dumps(py['transcripts'][j:j + 1])[:200]} / {json.dumps(model['pyTranscripts'][j:j + 1])[:200]}")
         ea = [[n, {k: v for k, v in r.items() if k != "exc"}] for n, r in io["ext"]]
         if ea != model["ext"]:
             k = next((i for i, (x, y) in enumerate(zip(ea, model["ext"])) if x != y), 0)
@@ -602,11 +815,19 @@ class C14(Check):
 
     # ---- the property's statement on the implementation's observations
     def oracle(self, case, impl):
+        fails = self.predicate(case, impl)
+        if fails and not getattr(self, "_shrinking", False):
+            self.__dict__.setdefault("_failed", []).append((case, [sig for sig, _ in fails]))
+        return fails
+
+    def predicate(self, case, impl):
         fails = []
         codes = impl["ctypes"]
         io, py = impl["interop"], impl["python"]
         cbs = io["callbacks"]
         steps = case["steps"]
+        ids, who, legs = case_ids(case), case_who(case), case_legs(case)
+        io_idx, py_idx = leg_steps(case, "interop"), leg_steps(case, "python")
         for order, res in (impl.get("shared") or {}).items():
             i, p = res.get("interop", {}), res.get("python", {})
             if "raised" in i or i.get("consequences") != 0 or i.get("seen") != []:
@@ -615,73 +836,98 @@ class C14(Check):
             if "raised" in p or p.get("range0") != 25.0:
                 fails.append(("C14:extension-disabled-in-python", f"one protocol class under both wrappers ({order}): the "
                               f"communication controller on the python-wrapped instance gave {p}; expected range 25.0"))
-        # protocol-visible inputs: id and time, identical in both wrappers
-        want = [[case["id"], s[1], s[2], s[0]] for s in steps]
-        for name, got in (("interop", io["triggers"]), ("python", py["triggers"])):
+        # protocol-visible inputs: every delivered callback reaches its protocol instance exactly once, with the
+        # node's id, the time and the payload it was delivered with — identical in both wrappers
+        for name, idx, leg in (("interop", io_idx, io), ("python", py_idx, py)):
+            want = [[ids[who[i]], steps[i][1], steps[i][2], steps[i][0]] for i in idx]
+            got = leg["triggers"]
             if got != want:
-                k = next((i for i, (x, y) in enumerate(zip(got, want)) if x != y), min(len(got), len(want)))
-                fails.append(("C14:callback-inputs", f"{name} wrapper: callback #{k} saw (id, kind, payload, time) = "
-                              f"{got[k:k + 1]}, delivered {want[k:k + 1]}"))
-        # A. each callback returns exactly what was issued during it, nothing left over
-        carry, carry_cancel_only = [], True
-        for i, cb in enumerate(cbs):
-            mine = issued(cb["transcript"], codes)
-            if isinstance(cb["ret"], str):
-                if cb["ret"].startswith("raised:"):
-                    carry = carry + mine
-                    carry_cancel_only = carry_cancel_only and aborted_by_cancel(cb)
-                else:
-                    fails.append(("C14:returned-not-issued", f"interop callback #{i} {steps[i][:3]} returned None"))
-                continue
-            if cb["ret"] != mine:
-                if carry and carry_cancel_only and cb["ret"] == carry + mine:
-                    fails.append(("C14:interop-cancel-timer",
-                                  f"interop callback #{i} {steps[i][:3]} returned {len(carry)} consequence(s) left over "
-                                  f"from an earlier callback that cancel_timer aborted with NotImplementedError: {carry[:3]}"))
-                else:
-                    fails.append(("C14:returned-not-issued",
-                                  f"interop callback #{i} {steps[i][:3]} returned {json.dumps(cb['ret'])[:240]} but issued "
-                                  f"{json.dumps(mine)[:240]}"))
-            carry, carry_cancel_only = [], True
-        if io["pending"] != 0:
-            if carry and carry_cancel_only and io["pending"] == len(carry):
-                fails.append(("C14:interop-cancel-timer", f"{io['pending']} consequence(s) still pending after the last "
-                              f"callback, issued before cancel_timer raised NotImplementedError"))
+                k = next((j for j, (x, y) in enumerate(zip(got, want)) if x != y), min(len(got), len(want)))
+                at = idx[k] if k < len(idx) else len(steps)
+                fails.append(("C14:callback-inputs", f"{name} wrapper: the protocol's callback number {k} saw (id, kind, "
+                              f"payload, time) = {got[k:k + 1]}, step #{at} delivered {want[k:k + 1]} "
+                              f"({len(got)} callbacks reached the protocol, {len(want)} were delivered)"))
             else:
-                fails.append(("C14:left-over", f"{io['pending']} consequence(s) pending after the last callback"))
-        # B. python forwards every provider request to exactly one handler, in order, for this node
-        flat_py = [a for tr in py["transcripts"] for a, _ in tr]
-        want_log = [[ROUTE[a[0]], a, case["id"]] for a in flat_py if a[0] in ROUTE]
+                wantp = [steps[i][3] if steps[i][1] == "telemetry" else None for i in idx]
+                gotp = leg.get("seenPos", wantp)
+                if gotp != wantp:
+                    k = next((j for j, (x, y) in enumerate(zip(gotp, wantp)) if x != y), 0)
+                    fails.append(("C14:callback-inputs", f"{name} wrapper: telemetry step #{idx[k]} delivered position bits "
+                                  f"{wantp[k]}, the protocol saw {gotp[k]}"))
+        # A. each callback returns exactly what its instance issued during it, nothing left over
+        pending_by = dict((k, n) for k, n in io.get("pendingBy", [[legs["interop"][0], io["pending"]]]))
+        for inst in legs["interop"]:
+            carry, carry_cancel_only = [], True
+            for j, i in enumerate(io_idx):
+                if who[i] != inst:
+                    continue
+                cb = cbs[j]
+                mine = issued(cb["transcript"], codes)
+                if isinstance(cb["ret"], str):
+                    if cb["ret"].startswith("raised:"):
+                        carry = carry + mine
+                        carry_cancel_only = carry_cancel_only and aborted_by_cancel(cb)
+                    else:
+                        fails.append(("C14:returned-not-issued", f"interop callback #{i} {steps[i][:3]} returned None"))
+                    continue
+                if cb["ret"] != mine:
+                    if carry and carry_cancel_only and cb["ret"] == carry + mine:
+                        fails.append(("C14:interop-cancel-timer",
+                                      f"interop callback #{i} {steps[i][:3]} returned {len(carry)} consequence(s) left over "
+                                      f"from an earlier callback that cancel_timer aborted with NotImplementedError: {carry[:3]}"))
+                    else:
+                        fails.append(("C14:returned-not-issued",
+                                      f"interop callback #{i} {steps[i][:3]} of node {ids[inst]} returned "
+                                      f"{json.dumps(cb['ret'])[:240]} but issued {json.dumps(mine)[:240]}"))
+                carry, carry_cancel_only = [], True
+            left = pending_by.get(inst, 0)
+            if left != 0:
+                if carry and carry_cancel_only and left == len(carry):
+                    fails.append(("C14:interop-cancel-timer", f"{left} consequence(s) still pending after the last "
+                                  f"callback, issued before cancel_timer raised NotImplementedError"))
+                else:
+                    fails.append(("C14:left-over", f"{left} consequence(s) pending on node {ids[inst]} after its last callback"))
+        # B. python forwards every provider request to exactly one handler, in order, for the node that made it
+        want_log = [[ROUTE[a[0]], a, ids[who[i]], who[i]] for j, i in enumerate(py_idx) for a, _ in py["transcripts"][j]
+                    if a[0] in ROUTE]
         if py["log"] != want_log:
             k = next((i for i, (x, y) in enumerate(zip(py["log"], want_log)) if x != y), min(len(py["log"]), len(want_log)))
-            fails.append(("C14:python-forwarding", f"python wrapper: handler calls differ from the protocol's requests at "
-                          f"#{k}: recorded {py['log'][k:k + 2]}, requested {want_log[k:k + 2]}"))
-        #    wrapper equivalence, under the property's guard
+            fails.append(("C14:python-forwarding", f"python wrapper: handler calls [handler, request, node id, instance] differ "
+                          f"from the protocols' requests at #{k}: recorded {py['log'][k:k + 2]}, requested {want_log[k:k + 2]}"))
+        #    wrapper equivalence, under the property's guard, for every instance that is fed the same callbacks at the
+        #    same times in both legs (whatever other instances exist in either leg)
         rows = {trig_key(r["n"], r["cb"], r["key"], r["t"]): r for r in impl["table"]}
-        used = [rows.get(trig_key(*[tg[0], tg[1], tg[2], tg[3]])) for tg in io["triggers"]]
-        listlike = all(r is None or all(a[0] != "onRefused" for a in r["acts"]) for r in used)
-        uncaught = any(r is not None and r.get("uncaught") for r in used)
-        refused = any(not ok for tr in py["transcripts"] for _, ok in tr) or \
-            any(not ok for cb in cbs for _, ok in cb["transcript"])
-        all_returned = all(not isinstance(cb["ret"], str) for cb in cbs) and all(x is None for x in py["raised"])
-        if all_returned and not uncaught and (listlike or not refused):
-            acts_io = [[a for a, _ in cb["transcript"]] for cb in cbs]
-            acts_py = [[a for a, _ in tr] for tr in py["transcripts"]]
+        for inst in legs["interop"]:
+            if inst not in legs["python"]:
+                continue
+            mine_io = [(i, cbs[j]) for j, i in enumerate(io_idx) if who[i] == inst]
+            mine_py = [(i, py["transcripts"][j], py["raised"][j]) for j, i in enumerate(py_idx) if who[i] == inst]
+            used = [rows.get(trig_key(ids[inst], steps[i][1], steps[i][2], steps[i][0])) for i, _ in mine_io]
+            listlike = all(r is None or all(a[0] != "onRefused" for a in r["acts"]) for r in used)
+            uncaught = any(r is not None and r.get("uncaught") for r in used)
+            refused = any(not ok for _, tr, _ in mine_py for _, ok in tr) or \
+                any(not ok for _, cb in mine_io for _, ok in cb["transcript"])
+            all_returned = all(not isinstance(cb["ret"], str) for _, cb in mine_io) and all(x is None for _, _, x in mine_py)
+            if not (all_returned and not uncaught and (listlike or not refused)):
+                continue
+            acts_io = [[a for a, _ in cb["transcript"]] for _, cb in mine_io]
+            acts_py = [[a for a, _ in tr] for _, tr, _ in mine_py]
             if acts_io != acts_py:
                 k = next((i for i, (x, y) in enumerate(zip(acts_io, acts_py)) if x != y), 0)
-                fails.append(("C14:wrappers-differ", f"callback #{k} {steps[k][:3]}: the protocol issued {acts_io[k][:4]} "
-                              f"under interop but {acts_py[k][:4]} under python"))
-            fwd = [consequence_of(a, codes) for _, a, _ in py["log"] if a[0] != "cancelTimer"]
-            ret = [c for cb in cbs for c in cb["ret"] if c[0] != codes["trackVariable"]]
+                at = mine_io[k][0]
+                fails.append(("C14:wrappers-differ", f"callback #{at} {steps[at][:3]} of node {ids[inst]}: the protocol issued "
+                              f"{acts_io[k][:4]} under interop but {acts_py[k][:4]} under python"))
+            fwd = [consequence_of(a, codes) for _, a, _, k in py["log"] if a[0] != "cancelTimer" and k == inst]
+            ret = [c for _, cb in mine_io for c in cb["ret"] if c[0] != codes["trackVariable"]]
             if fwd != ret:
                 k = next((i for i, (x, y) in enumerate(zip(fwd, ret)) if x != y), min(len(fwd), len(ret)))
-                fails.append(("C14:wrappers-differ", f"requests forwarded by the python wrapper differ from the consequences "
-                              f"returned by interop at #{k}: {fwd[k:k + 2]} / {ret[k:k + 2]}"))
+                fails.append(("C14:wrappers-differ", f"node {ids[inst]}: requests forwarded by the python wrapper differ from "
+                              f"the consequences returned by interop at #{k}: {fwd[k:k + 2]} / {ret[k:k + 2]}"))
         # C. extensions are no-ops outside the python simulator
-        for i, cb in enumerate(cbs):
+        for j, cb in enumerate(cbs):
             for a, ok in cb["transcript"]:
                 if not ok and (a[0] == "ext" or (a[0] == "setRange" and bitsf(a[1]) >= 0)):
-                    fails.append(("C14:extension-not-noop", f"interop callback #{i}: {a} raised "
+                    fails.append(("C14:extension-not-noop", f"interop callback #{io_idx[j]}: {a} raised "
                                   f"({sorted(set(io['exc']))}) instead of being a no-op"))
         for name, ret in io["extBad"]:
             fails.append(("C14:extension-not-noop", f"{name} returned {ret} under interop, not its neutral value"))
@@ -711,37 +957,104 @@ class C14(Check):
         return json.dumps([[cb["ret"], cb["transcript"]] for cb in impl["interop"]["callbacks"]], sort_keys=True, default=str)
 
     def sample(self, case, impl):
-        return {"label": case.get("label"), "id": case["id"], "steps": case["steps"][:6],
+        return {"label": case.get("label"), "ids": case_ids(case), "legs": case_legs(case), "who": case_who(case)[:6],
+                "steps": case["steps"][:6],
                 "interop_returns": [cb["ret"] for cb in impl["interop"]["callbacks"][:3]],
                 "python_log": impl["python"]["log"][:6], "ext": impl["interop"]["ext"][:3]}
 
     def stats(self, case, impl, acc):
-        acc["cases"] = acc.get("cases", 0) + 1
-        acc["callbacks"] = acc.get("callbacks", 0) + len(case["steps"])
+        def bump(k, n=1):
+            acc[k] = acc.get(k, 0) + n
+        bump("cases")
+        bump("callbacks", len(case["steps"]))
+        ids, who, legs = case_ids(case), case_who(case), case_legs(case)
+        bump(f"cases_with_{len(ids)}_instances")
+        if legs["interop"] != legs["python"]:
+            bump("cases_other_instances_in_one_leg_only")
+        last = {}
+        for st, k in zip(case["steps"], who):
+            if last.get(k) is not None and last[k][1:] == st[1:]:
+                bump("callback_equal_to_previous_" + st[1])
+            last[k] = st
+        rows = {trig_key(r["n"], r["cb"], r["key"], r["t"]): r for r in impl["table"]}
+        written = {}
+        for tg in impl["python"]["triggers"]:
+            row = rows.get(trig_key(*tg))
+            for a in (row["acts"] if row else []):
+                flat = [a[1]] + list(a[2]) if a[0] == "onRefused" else [a]
+                for x in flat:
+                    if x[0] in ("track", "trackInc"):
+                        if x[0] == "trackInc":
+                            bump("tracked_read_back")
+                            if any(n != tg[0] for n in written.get(x[1], ())):
+                                bump("tracked_read_back_of_a_name_another_instance_wrote")
+                        written.setdefault(x[1], set()).add(tg[0])
+                    elif x[0] == "sendTracked":
+                        bump("tracked_read_back")
+                        if any(n != tg[0] for n in written.get(x[1], ())):
+                            bump("tracked_read_back_of_a_name_another_instance_wrote")
+                    elif x[0] == "sendCount":
+                        bump("callback_count_in_request")
         for cb in impl["interop"]["callbacks"]:
             for a, ok in cb["transcript"]:
-                k = "act_" + a[0] + ("" if ok else "_refused")
-                acc[k] = acc.get(k, 0) + 1
+                bump("act_" + a[0] + ("" if ok else "_refused"))
         for tr in impl["python"]["transcripts"]:
             for a, ok in tr:
                 if not ok:
-                    acc["python_refused_" + a[0]] = acc.get("python_refused_" + a[0], 0) + 1
+                    bump("python_refused_" + a[0])
         if any(any(a[0] == "onRefused" for a in r["acts"]) for r in impl["table"]):
-            acc["cases_branching_on_refusal"] = acc.get("cases_branching_on_refusal", 0) + 1
+            bump("cases_branching_on_refusal")
 
     def shrink(self, case, still_fails):
+        """smallest input that fails BY ITSELF, in a process that has run nothing else (so that the replay
+        file reproduces); when the reported case only fails because of what earlier cases of this run left
+        behind in the process, another failing case of the run with the same signature is taken instead"""
+        from framework import known_match
+        failed = list(getattr(self, "_failed", []))
+        self._shrinking = True
+        fresh = Pristine()
+        try:
+            sigs = next((sg for c, sg in failed if c is case), [])
+            sig = next((x for x in sigs if not known_match(self.prop, x)), None)
+
+            def alone(c):
+                got = fresh.fails(c)
+                return True if (got is None or sig is None) else sig in got
+
+            def both(c):
+                return still_fails(c) and alone(c)
+
+            start = case
+            if not alone(case):
+                for c, sg in failed[:200]:
+                    if c is not case and sig in sg and alone(c) and still_fails(c):
+                        start = c
+                        break
+            return self.minimise(start, both)
+        finally:
+            fresh.close()
+            self._shrinking = False
+
+    def minimise(self, case, still_fails):
         impl = self.run_impl(case)
         best = copy.deepcopy(case)
         best["frozen"] = True
         best["table"] = impl["table"]
+        best["who"] = case_who(case)
+        best["ids"] = case_ids(case)
+        if not impl.get("shared"):
+            best.pop("sharedClass", None)
         if not still_fails(best):
             return case
         changed = True
         while changed:
             changed = False
-            for i in range(len(best["steps"]) - 1, 0, -1):
+            for i in range(len(best["steps"]) - 1, -1, -1):
+                if best["steps"][i][1] == "initialize" and best["who"][i] == 0:
+                    continue
                 cand = copy.deepcopy(best)
                 del cand["steps"][i]
+                del cand["who"][i]
                 if still_fails(cand):
                     best, changed = cand, True
             for ri in range(len(best["table"])):
@@ -750,9 +1063,13 @@ class C14(Check):
                     del cand["table"][ri]["acts"][ai]
                     if still_fails(cand):
                         best, changed = cand, True
-        keys = {trig_key(case["id"], s[1], s[2], s[0]) for s in best["steps"]}
-        best["table"] = [r for r in best["table"] if trig_key(r["n"], r["cb"], r["key"], r["t"]) in keys and r["acts"]]
-        return best if still_fails(best) else case
+        keys = {trig_key(best["ids"][k], s[1], s[2], s[0]) for s, k in zip(best["steps"], best["who"])}
+        final = copy.deepcopy(best)
+        final["table"] = [r for r in best["table"] if trig_key(r["n"], r["cb"], r["key"], r["t"]) in keys and r["acts"]]
+        return final if still_fails(final) else best
 
 
 CHECKS = {"C14": C14}
+
+if __name__ == "__main__" and "--pristine-server" in sys.argv:
+    pristine_server()
